@@ -7,6 +7,10 @@ HOOK_COMMITS = subprocess.run(
     capture_output=True, text=True).stdout.strip().splitlines()
 
 CHECKS = {
+ "C08": dict(level="fault_enumeration", ref="DESIGN.md §3 C08",
+   technique="runtime monitoring with fault injection: adversarial channel rewrites/drops messages or crashes the peer; outcome, exact deadlock detection and counting allocator observed per execution (sharded sub-processes)",
+   text="For every message a corrupted party sends in the fault configurations (n=2 complete, n=3 sampled in quick / complete in thorough) the message is replaced by every byte-level class and every structure-aware mutation class of its decoded tree, or the peer vanishes after it (both send-to-dead semantics). Each honest party must end in Ok or Err: a caught panic, an exact 'no runnable task' state, a single allocation request above the bound or a process abort is a violation.",
+   note="Holds for the executions produced (evidence lists cases per label and the outcome histogram). Assumes peers that terminate close their endpoints; silent-but-connected peers are outside the property. Coins of the engine are not reproducible, replay re-runs the case."),
  "C01": dict(level="exploration", ref="DESIGN.md §3 C01",
    technique="runtime monitoring: real mpc futures in a deterministic simulator, return values compared with an independent clear-text evaluator",
    text="Every party's return value of the real polytune::mpc is compared with an independent clear-text evaluator over generated valid register circuits, for n=2..5, every evaluator, output sets, temp-file masks, channel capacities and AND counts on both sides of the batch boundaries. Held on the executions produced; not a proof.",
